@@ -41,6 +41,8 @@ assume-func github.com/iotaledger/hive.go/runtime/syncutils.Counter.Decrease(c) 
   ensures delta == upd(old(delta), c, sel(old(delta), c) - 1)
 assume-func github.com/iotaledger/hive.go/runtime/debug.GetEnabled() (r)
   ensures true
+assume-func github.com/iotaledger/hive.go/runtime/debug.ClosureStackTrace(f) (r)
+  ensures true
 
 func newTask
   ensures r0 != nil && fresh(r0) && r0.workerFunc == workerFunc && r0.doneCallback == doneCallback && r0.doneChan != nil && !closed(r0.doneChan)
